@@ -357,6 +357,15 @@ func drawConfig(c *kernel.Ctx, mode Mode) Config {
 			cfg.ByzKinds = append(cfg.ByzKinds, kind)
 		}
 	}
+	if cfg.Crashes {
+		// A node that restarts without its WAL has forgotten what it voted for
+		// and locked on in the current height: it is an amnesiac, i.e. faulty,
+		// validator, and with a Byzantine one beside it the < 1/3 assumption of
+		// the safety argument is gone (a disagreement was reached that way in the
+		// thorough tier of C12). linkchain nodes always run with the WAL, so
+		// crash runs do too.
+		cfg.UseWAL = true
+	}
 	return cfg
 }
 
